@@ -120,6 +120,22 @@ start :: fn do
     pr(name)
 end
 ''',
+"tuple_arithmetic_through_parameters": '''
+scale :: fn v: (float, float), k: float -> (float, float) do
+    ret v / k
+end
+shift :: fn v: (int, int), d: (int, int) do
+    w := v + d
+    pr(w * d - v)
+end
+start :: fn do
+    p := scale((1.0, 2.0), 2.0)
+    acc: (float, float) = p
+    acc /= 2.0
+    pr(acc)
+    shift((1, 2), (3, 4))
+end
+''',
 "plain_recursive_functions": '''
 fib :: fn a: int -> int do
     if a < 2 do
